@@ -20,7 +20,7 @@ import time as _time
 from sim import core
 from sim import requests as R
 
-TINY = ["mass_p1_interval", "laplace_p1_tri_coeff", "expr_p1_tri_2pts"]
+TINY = ["mass_p1_interval", "laplace_p1_tri_coeff", "expr_p1_tri_2pts", "two_forms_tri"]
 JIT_KW = {"cffi_extra_compile_args": ["-O0"]}
 DISK_FAULTS = ("marker-enospc", "lock-eacces")
 _PID_RE = re.compile(r"\.~\d+")
@@ -359,7 +359,7 @@ class Sim:
                 self.kill(p, "kill")
                 return
             if k == "interrupt":
-                ans = {"act": "interrupt", "now": self.now}
+                ans = {"act": "interrupt", "now": self.now, "exc": fault.get("exc", "KeyboardInterrupt")}
             elif k == "stall":
                 stall = fault["dur"]
                 cur["own_dur"] += stall
@@ -542,6 +542,19 @@ class Sim:
         else:
             p.pending = nxt
 
+    def cache_arg(self, p):
+        """How this process spells the (one) cache directory: absolute, through a symbolic link,
+        or relative to its working directory."""
+        sp = (self.scn.get("cache_spelling") or {}).get(str(p.name))
+        if sp == "symlink":
+            link = os.path.join(self.tmp, f"cachelink-{p.idx}")
+            if not os.path.islink(link):
+                os.symlink(self.cache, link)
+            return link
+        if sp == "relative":
+            return os.path.relpath(self.cache, os.getcwd())
+        return None
+
     def coarse_dir_time(self):
         """Buggify knob: a file system with 2 s time stamps (ext3, NFS, FAT).  After every granted
         step the cache directory's mtime is what such a file system would show at this virtual
@@ -613,8 +626,15 @@ class Sim:
                 self.bump("probe_stdout_not_restored_after_disk_or_interrupt")
             else:
                 self.violate("I-GLOBAL/stdout", f"process {p.idx} request {cur['req']}: sys.stdout not restored")
-        if not out.get("cwd_same"):
-            self.bump("probe_cwd_changed")
+        for flag, key in (("cwd_same", "I-GLOBAL/cwd"), ("stderr_same", "I-GLOBAL/stderr"),
+                          ("environ_same", "I-GLOBAL/environ"), ("root_level_same", "I-GLOBAL/root-level")):
+            if not out.get(flag, True):
+                if exempt:
+                    self.bump("probe_" + flag + "_violated_after_disk_error")
+                else:
+                    self.violate(key, f"process {p.idx} request {cur['req']} ({out['result']} "
+                                      f"{out.get('exc') or ''}): {flag.replace('_same', '')} is not what it was "
+                                      f"before the request")
         # H-REUSE: a complete, marked module is found and reused without recompiling
         if cur.get("expect_cached") and not cur["faulted"] and not cur.get("interrupted"):
             if out["result"] != "returned" or out.get("built") or cur.get("role") == "builder" \
@@ -672,7 +692,8 @@ class Sim:
                      or (gh["warm"] and gh["build"] == "complete"))
         self.now = max(self.now, p.ready)
         self.log.add(round(self.now, 6), p.idx, "request", rq["req"], rq["timeout"])
-        self.send(p, {"cmd": "request", "req": rq["req"], "timeout": rq["timeout"], "now": self.now})
+        self.send(p, {"cmd": "request", "req": rq["req"], "timeout": rq["timeout"], "now": self.now,
+                      "cache_arg": self.cache_arg(p)})
         msg = self.recv(p)
         if msg is None:
             self.reap(p)
